@@ -67,6 +67,7 @@ ASSUMPTIONS = [
 COMPONENTS = {
     "real": ["all of ivykis (/repo/src, unmodified, recompiled by the check)", "glibc pthread mutex/spin/TLS/key destructors/thread create+join",
              "Linux epoll, poll, eventfd, pipes, AF_UNIX sockets, inotify, splice"],
+    "real_but_puppeteered": ["really forked children in a few runs (popen wiring through /bin/sh, fork-child signal guard, raw-event post from a child): the simulated world stands still until they are done"],
     "simulated": ["clock", "blocking and time-outs of epoll_wait/epoll_pwait2/poll/ppoll", "timerfd", "thread scheduling",
                   "signal dispositions, masks, pending sets and delivery", "child processes (fork/wait4/kill)", "fault outcomes"],
 }
